@@ -39,8 +39,15 @@ def _config_reads(ck, cls):
     return keys
 
 
-def _dict_writes(fa: FA, var="config"):
+def _dict_writes(fa: FA, var=None):
+    """Keys written into the dict that the function returns (or into `var`)."""
     keys = set()
+    if var is None:
+        rn = {r.value.id for r in A.walk_body(fa.node) if isinstance(r, ast.Return) and isinstance(r.value, ast.Name)}
+        var = sorted(rn)[0] if len(rn) == 1 else "config"
+        for r in A.walk_body(fa.node):
+            if isinstance(r, ast.Return) and isinstance(r.value, ast.Dict):
+                keys |= {A.const_str(k) for k in r.value.keys if A.const_str(k)}
     for n in A.walk_body(fa.node):
         if isinstance(n, ast.Assign):
             for t in n.targets:
